@@ -311,7 +311,12 @@ def decide(pid, tier, seed, replay, t0):
                 nontrivial.add(l)
         except Exception:
             pass
-        msg = mod.oracle(l, o)
+        try:
+            msg = mod.oracle(l, o)
+        except Exception as e:      # the real output no longer has the shape the property's oracle can read
+            if len(problems) < 50:
+                problems.append("property oracle could not interpret the implementation's output for `%s`: %r" % (l[:200], e))
+            continue
         if msg:
             k = mod.known_match(l, o, msg, known)
             if k:
